@@ -882,6 +882,8 @@ class Engine:
         if dstar_name:
             if dstarv is not None and not extra_kw:
                 env[dstar_name.lstrip("*")] = dstarv
+            elif c.params[dstar_name].kind == "dict":
+                raise Unsupported("keyword arguments into a Dict-typed **%s need a source dict (%s)" % (dstar_name, what))
             else:
                 env[dstar_name.lstrip("*")] = V(STAR, py=("kwargs", extra_kw, dstarv))
         elif extra_kw or dstarv is not None:
@@ -941,8 +943,27 @@ class Engine:
         yield from self.apply_spec(c, args, kwargs, st, what, starv, dstarv)
 
     def apply_spec(self, c: S.Contract, args, kwargs, st, what, starv=None, dstarv=None, fval=None):
+        if "**" in kwargs:
+            # f(**d): the callee receives a *new* dict holding d's items plus the explicit keywords
+            kwargs = dict(kwargs)
+            src = kwargs.pop("**")
+            dname = next((p for p in c.params if p.startswith("**")), None)
+            if dname is not None and c.params[dname].kind == "dict":
+                kt, vt = c.params[dname].args
+                nd = st.new_ref(c.params[dname])
+                dom, val = st.dict_get(src)
+                plain = [p for p in c.params if not p.startswith("*")]
+                for k in [k for k in kwargs if k not in plain]:
+                    v = kwargs.pop(k)
+                    dom = z3.Store(dom, z3.StringVal(k), True)
+                    val = z3.Store(val, z3.StringVal(k), coerce(v, vt).t)
+                st.dict_set(nd, dom, val)
+                dstarv = nd
+            else:
+                dstarv = V(STAR, py=("kwargs-of", src))
         env = self.bind(c, args, kwargs, what, starv, dstarv)
         if fval is not None:
+            env["self_fn"] = fval
             # callable specs see the caller's variables too (ghost access to ambient objects)
             amb = {}
             for fr in st.frames:
@@ -967,6 +988,9 @@ class Engine:
         for ename, spec in c.raises.items():
             st_e = st.fork()
             env_e = dict(env)
+            rid = fresh(ANY, "raised")
+            st_e.assume(z3.And(rid.t > 0, rid.t < st_e.alloc))
+            env_e["raised"] = rid
             see = SpecEval(st_e, env_e, old, env, self)
             if spec["when"]:
                 st_e.assume(SpecEval(old, env, None, None, self).bool_of(spec["when"]))
@@ -975,6 +999,7 @@ class Engine:
             if self.feasible(st_e):
                 cls = None if ename == "*" else self.exc_class(ename)
                 exc = Exc(cls, origin=what)
+                exc.rid = rid
                 yield st_e, Raised(exc)
         # 4. normal outcome
         env_n = dict(env)
@@ -1005,6 +1030,11 @@ class Engine:
 
     def havoc_location(self, st, loc: str, env, old):
         n = parse_expr(loc)
+        if isinstance(n, ast.Attribute) and isinstance(n.value, ast.Name) and n.value.id == "G":
+            if n.attr not in S.GHOSTS:
+                raise Unsupported("undeclared ghost G.%s" % n.attr)
+            st.ghost[n.attr] = fresh(S.GHOSTS[n.attr], "G_" + n.attr)
+            return
         pointer = False
         if isinstance(n, ast.Call) and isinstance(n.func, ast.Name) and n.func.id == "ptr":
             pointer = True
@@ -1123,9 +1153,18 @@ class Engine:
         yield "next", st, None
 
     def ex_Import(self, s, st):
+        for a in s.names:
+            st.env[a.asname or a.name.split(".")[0]] = V(MODULE, py=a.name if a.asname else a.name.split(".")[0])
         yield "next", st, None
 
-    ex_ImportFrom = ex_Import
+    def ex_ImportFrom(self, s, st):
+        for a in s.names:
+            full = "%s.%s" % (s.module, a.name)
+            if is_module(full):
+                st.env[a.asname or a.name] = V(MODULE, py=full)
+            else:
+                st.env[a.asname or a.name] = self.sym_value("%s:%s" % (s.module, a.name))
+        yield "next", st, None
 
     def ex_Global(self, s, st):
         raise Unsupported("global statement")
@@ -1411,9 +1450,8 @@ class Engine:
             for st2, m, exc2 in self.handler_matches(h, st, exc):
                 if m:
                     if h.name:
-                        ev = exc2.ref if exc2.ref is not None else V(OBJ("<exc>"), z3.IntVal(-1), py=exc2.cls)
-                        ev._exc = exc2
-                        st2.env[h.name] = ev
+                        from .builtins_model import exc_value
+                        st2.env[h.name] = exc_value(exc2)
                     saved = st2.cur_exc
                     st2.cur_exc = exc2
                     for kind, st3, p in self.ex(h.body, st2):
@@ -1447,8 +1485,10 @@ class Engine:
         if all(c is Exception for c in classes):
             if exc.is_exception is None:
                 e1 = Exc(None, exc.ref, exc.origin, True)
+                e1.rid = exc.rid
                 yield st.fork(), True, e1
                 e2 = Exc(None, exc.ref, exc.origin, False)
+                e2.rid = exc.rid
                 yield st, False, e2
             else:
                 yield st, exc.is_exception, exc
@@ -1458,6 +1498,7 @@ class Engine:
             yield st, False, exc
             return
         e1 = Exc(classes[0], exc.ref, exc.origin)
+        e1.rid = exc.rid
         yield st.fork(), True, e1
         yield st, False, exc
 
